@@ -54,6 +54,24 @@ CHECKS.update({
         note="Fresh engine = new schema name cooked per distinct request."),
 })
 
+CHECKS.update({
+    "C06": dict(
+        level="exploration", design="DESIGN.md section 5 C06",
+        technique="deterministic simulation runs of valid-by-construction documents (generator knobs at maximum) against the reference executor; weak schedule dimension, stated in DESIGN.md section 2",
+        text="Seeded search over documents that are valid by construction against the full June-2018 rule set, with the "
+             "legal-but-unusual constructions over-weighted (fragment DAGs with sharing, repeated spreads, definitions after use, "
+             "variables only in fragments, directives everywhere, introspection fields); the engine must not answer with "
+             "request-level errors and data must equal the reference executor.",
+        note="Validation is synchronous: the schedule is sampled but adds no assurance here; the deciding step is the seeded search over documents."),
+    "C07": dict(
+        level="fault_enumeration", design="DESIGN.md section 5 C07",
+        technique="fault injection on the client's message: catalogue of rule-breaking rewrites enumerated at every applicable node of generated documents, executed under the simulator; oracle = refusal + empty event log",
+        text="For each generated valid document every rewrite of a catalogue (25 rule families x kinds of site) is applied at every "
+             "applicable node (thorough: all, cap 400; quick: 40 sampled); each corrupted request must yield data null, errors, and "
+             "an event log with no resolver / type-resolver / hook event.",
+        note="Rewrites are trusted to break the named rule only. Exhaustive per generated document, documents sampled."),
+})
+
 NOT_APPLICABLE = {
     "C10": "pure synchronous functions of one value (scalar coercion laws): no schedule, clock, fault, interleaving or history "
            "for a simulator to control; deciding them is boundary-value enumeration, a different technique (DESIGN.md section 2)",
